@@ -44,6 +44,7 @@ func init() {
 		"(reflect.Value).Interface":       ext۰reflect۰Value۰Interface,
 		"(reflect.Value).IsNil":           ext۰reflect۰Value۰IsNil,
 		"(reflect.Value).IsValid":         ext۰reflect۰Value۰IsValid,
+		"(reflect.Value).IsZero":          ext۰reflect۰Value۰IsZero,
 		"(reflect.Value).Kind":            ext۰reflect۰Value۰Kind,
 		"(reflect.Value).Len":             ext۰reflect۰Value۰Len,
 		"(reflect.Value).MapIndex":        ext۰reflect۰Value۰MapIndex,
